@@ -642,7 +642,14 @@ def run(cx):
         up = [u for u in k.upvars if u["name"] == "outbound_request_layer"]
         ob.require(len(up) == 1, "outbound/captured", "closure does not capture outbound_request_layer", k.path)
         loc = start.local_by_name("outbound_request_layer")
-        ob.require(len(loc) == 1 and all(d[0] == "call" and start.call_at(d[1]) in bl for d in start.defs().get(loc[0], [])), "outbound/local-defs",
+        okl = len(loc) == 1
+        if okl:
+            # whatever the local is assigned from (the two branches directly, or the result of a helper that holds them), every
+            # value it can take is the result of one of the BoxLayer::new sites checked above
+            lt_ = strip_identity(o.of_local(loc[0]))
+            alts_ = [strip_identity(a_) for a_ in lt_[1]] if lt_[0] == "phi" else [lt_]
+            okl = bool(alts_) and all(a_[0] == "call" and name_matches(a_[1], "tower::util::boxed::layer::BoxLayer::new") and a_[3] in {c.bb for c in bl} for a_ in alts_)
+        ob.require(okl, "outbound/local-defs",
                    "local outbound_request_layer has a definition that is not one of the BoxLayer::new sites", start.path)
         check_constructed_only_in(ob, prog, "anemo::network::NetworkInner", ["anemo::network::Builder::start"])
         check_field_writers(ob, prog, "anemo::network::NetworkInner", "outbound_request_layer", [], kinds=("mutref", "write", "move"))
